@@ -11,7 +11,6 @@
 package c15
 
 import (
-	"errors"
 	"fmt"
 	"os"
 	"strings"
@@ -285,4 +284,3 @@ func TestSpike(t *testing.T) {
 	}
 }
 
-var _ = errors.New
